@@ -1,7 +1,7 @@
 (** * Vld/ValidatorProofs.v — proofs about the validator model (C04). *)
 From Coq Require Import List NArith ZArith Bool Lia Permutation.
-From ApiFu Require Import Base.Sexp Vld.Ast Vld.Inspect Vld.Literals Vld.TypeInfoModel Vld.TypeInfoPure Vld.ValidatorModel Vld.ValidSpec
-     Vld.Hyps Vld.ProofsCommon Vld.ProofsDirectives Vld.ProofsArguments Vld.ProofsFragDecl Vld.ProofsValues Vld.ProofsOrder Vld.ProofsOperations.
+From ApiFu Require Import Base.Sexp Vld.Ast Vld.Inspect Vld.InspectProofs Vld.Literals Vld.TypeInfoModel Vld.TypeInfoPure Vld.ValidatorModel Vld.ValidSpec
+     Vld.Hyps Vld.ProofsCommon Vld.ProofsDirectives Vld.ProofsArguments Vld.ProofsFragDecl Vld.ProofsValues Vld.ProofsOrder Vld.ProofsOperations Vld.ProofsTotal Vld.Enumerate Vld.SpecEnum Vld.ProofsFields.
 Import ListNotations.
 
 (** ** the primary / secondary filter (validator.go:82-91) *)
@@ -136,12 +136,12 @@ Proof.
   intros Hpi H. apply validate_model_nil, all_rules_nil in H as [_ [_ [Ha [[Hd _] [Hv [Hdir _]]]]]].
   assert (valid_5_7 S D = true) as H57 by (apply (rule_directives_iff S F D); exact Hdir).
   split; [exact H57 |]. split; [apply (rule_fragment_declarations_iff pi Hpi S F D); exact Hd |]. split.
-  - intros Hs Hf. unfold schema_ok in Hs. apply andb_true_iff in Hs as [Hs1 Hs2].
+  - intros Hs Hf. unfold schema_ok in Hs. apply andb_true_iff in Hs as [Hs Hs3]. apply andb_true_iff in Hs as [Hs1 Hs2].
     assert (valid_5_7_1 S D = true) as H571.
     { unfold valid_5_7 in H57. apply andb_true_iff in H57 as [H57 _]. apply andb_true_iff in H57 as [H57 _]. exact H57. }
     destruct (rule_arguments_iff pi Hpi S F D (fields_defined_spec S F D Hf) H571 (schema_no_typename_spec S F Hs1)) as [errs [E Hiff]].
     rewrite E in Ha. inversion Ha; subst errs. apply Hiff. reflexivity.
-  - intros Hs Hf. unfold schema_ok in Hs. apply andb_true_iff in Hs as [Hs1 Hs2].
+  - intros Hs Hf. unfold schema_ok in Hs. apply andb_true_iff in Hs as [Hs Hs3]. apply andb_true_iff in Hs as [Hs1 Hs2].
     destruct (rule_values_iff pi Hpi S F (schema_input_closed_spec S Hs2) (schema_no_typename_spec S F Hs1) D
                               (values_typed_input_spec S F D Hf)) as [errs [E Hiff]].
     rewrite E in Hv. inversion Hv; subst errs. apply Hiff. reflexivity.
@@ -169,4 +169,111 @@ Theorem accepted_operations_hold pi S F D :
 Proof.
   intros H. apply validate_model_nil, all_rules_nil in H as [Ho _].
   apply (rule_operations_iff S F D) in Ho as [H1 [H2 [H3 _]]]. auto.
+Qed.
+
+(** with totality: under every order the outcome is a list of errors, empty under one order iff
+    empty under the other — the verdict (accept / reject) is a function of schema, features, document *)
+Theorem validate_verdict_order pi1 pi2 S F D :
+  order_ok pi1 -> order_ok pi2 ->
+  (validate_model repaired pi1 S F D = Done [] /\ validate_model repaired pi2 S F D = Done []) \/
+  (exists e1 l1 e2 l2, validate_model repaired pi1 S F D = Done (e1 :: l1) /\ validate_model repaired pi2 S F D = Done (e2 :: l2)).
+Proof.
+  intros H1 H2. destruct (validate_no_panic pi1 S F D H1) as [errs1 E1]. destruct (validate_no_panic pi2 S F D H2) as [errs2 E2].
+  pose proof (validate_accept_order pi1 pi2 S F D H1 H2) as Hiff. rewrite E1, E2 in *.
+  destruct errs1 as [|e1 l1]; destruct errs2 as [|e2 l2].
+  - left. auto.
+  - destruct Hiff as [Hiff _]. specialize (Hiff eq_refl). discriminate.
+  - destruct Hiff as [_ Hiff]. specialize (Hiff eq_refl). discriminate.
+  - right. exists e1, l1, e2, l2. auto.
+Qed.
+
+(** ** accepted documents: every selection set has a composite parent type, every field is defined,
+    5.3.1 and 5.3.3 hold — so the side condition [fields_defined] of the 5.4 clause is discharged *)
+Lemma merge_enter_dirty q pi S D st n : ~ clean st -> ~ clean (fst (merge_enter q pi S D st n)).
+Proof.
+  intros H. unfold merge_enter. destruct n; try exact H.
+  destruct (add_selections q D [] (Some s)) as [m v | e |]; [| apply add_errs_dirty; exact H | apply set_abort_dirty; exact H].
+  destruct (can_merge q pi S D (max_depth D) m); cbn [fst]; [exact H | apply add_errs_dirty; exact H | apply set_abort_dirty; exact H | apply set_abort_dirty; exact H].
+Qed.
+
+Lemma roots_composite S ot tn : schema_roots_ok S = true -> root_type S ot = Some tn -> composite_name S tn = true.
+Proof.
+  unfold schema_roots_ok. rewrite !andb_true_iff. intros [[[H1 H2] H3] _] Hr. unfold root_type in Hr.
+  destruct ot as [[k p]|]; [| inversion Hr; subst; exact H1].
+  destruct (name_eqb k s_query_kw); [inversion Hr; subst; exact H1 |].
+  destruct (name_eqb k s_mutation_kw); [rewrite Hr in H2; exact H2 |].
+  destruct (name_eqb k s_subscription_kw); [rewrite Hr in H3; exact H3 | discriminate].
+Qed.
+
+Theorem accepted_fields_hold pi S F D :
+  order_ok pi -> schema_ok S = true -> validate_model repaired pi S F D = Done [] ->
+  fields_defined S F D = true /\ valid_5_3_1 S F D = true /\ valid_5_3_3 S F D = true.
+Proof.
+  intros Hpi Hs Hacc. set (qo := q_unwrap_obj repaired).
+  destruct (accepted_rules_hold pi S F D Hpi Hacc) as [_ [H551 _]].
+  destruct (accepted_operations_hold pi S F D Hacc) as [_ [_ Hroot]].
+  unfold schema_ok in Hs. apply andb_true_iff in Hs as [Hs Hs3]. apply andb_true_iff in Hs as [Hs1 Hs2].
+  pose proof (schema_no_typename_spec S F Hs1) as Hnt.
+  assert (composite_name S n_String = false) as Hstr.
+  { unfold schema_roots_ok in Hs3. rewrite !andb_true_iff in Hs3. destruct Hs3 as [_ H]. apply negb_true_iff in H. exact H. }
+  (* the first visitor is silent *)
+  apply validate_model_nil, all_rules_nil in Hacc as [_ [Hf _]].
+  unfold rule_fields in Hf. apply finish_clean in Hf.
+  assert (r_errs (inspect (fields_enter S F) pop (tree_doc (pti_doc qo S F D)) rst0) = []) as Hpass.
+  { destruct (classic_clean (inspect (fields_enter S F) pop (tree_doc (pti_doc qo S F D)) rst0)) as [[H _] | Hd]; [exact H |].
+    exfalso. apply (inspect_dirty (fun st => ~ clean st) (merge_enter repaired pi S (pti_doc qo S F D)) (fun s => s) (tree_doc (pti_doc qo S F D))
+                                  (merge_enter_dirty repaired pi S (pti_doc qo S F D)) (fun st H => H) _ Hd). exact Hf. }
+  rewrite fields_pass_errors in Hpass.
+  assert (forall d o, In d D -> In o (ssels_ss S F (model_def_scope S F d) (def_sub d)) -> fe_ev1 S F (fst o) (pti_sel qo S F (fst o) (snd o)) = []) as Hsilent.
+  { intros d o Hd Ho. rewrite flat_map_nil_iff in Hpass. specialize (Hpass d Hd). rewrite flat_map_nil_iff in Hpass. apply Hpass. exact Ho. }
+  (* type conditions *)
+  assert (forall c, In c (type_conditions D) -> exists b, named_type S F c = Some b /\ is_composite_body b = true) as Hcond.
+  { unfold valid_5_5_1 in H551. rewrite !andb_true_iff in H551. destruct H551 as [[[_ H2] H3] _].
+    unfold valid_5_5_1_2, valid_5_5_1_3 in *. rewrite forallb_forall in H2, H3. intros c Hc.
+    specialize (H2 c Hc). specialize (H3 c Hc). unfold type_of in *. destruct (named_type S F c) as [b|]; [exists b; auto | discriminate]. }
+  assert (forall d o, In d D -> In o (ssels_ss S F (model_def_scope S F d) (def_sub d)) -> occ_fine S F qo o) as Hfine.
+  { intros d [sc s0] Hd Ho. split; [apply (Hsilent d _ Hd Ho) |]. simpl.
+    destruct s0 as [| | [[c cp]|] dirs sub e]; try exact I. apply Hcond. rewrite type_conditions_split. apply in_or_app. right.
+    apply in_flat_map. exists (SInline (Some (c, cp)) dirs sub e). split; [| left; reflexivity].
+    apply (in_all_sels S F D). exists d, sc. auto. }
+  assert (forall d, In d D -> good S (model_def_scope S F d)) as Hroots.
+  { intros d Hd. destruct d as [ot n vars dirs sub | kw n np [c cp] dirs sub].
+    - unfold valid_root in Hroot. rewrite forallb_forall in Hroot. specialize (Hroot _ Hd). simpl in Hroot.
+      change (model_def_scope S F (DOp ot n vars dirs sub)) with (TypeInfoPure.op_scope S ot).
+      pose proof (spec_def_scope_eq S F (DOp ot n vars dirs sub)) as E. simpl in E. rewrite <- E.
+      destruct (root_type S ot) as [tn|] eqn:Er; [| discriminate]. exists tn. split; [reflexivity | apply (roots_composite S ot tn Hs3 Er)].
+    - simpl. unfold TypeInfoPure.frag_scope. simpl.
+      destruct (Hcond c) as [b [Hb Hc]].
+      { rewrite type_conditions_split. apply in_or_app. left. unfold frag_conds. apply in_flat_map. exists (DFrag kw n np (c, cp) dirs sub). split; [exact Hd | left; reflexivity]. }
+      rewrite Hb. exists c. split; [reflexivity |]. unfold composite_name. rewrite (named_type_raw S F c b Hb). exact Hc. }
+  assert (forall d o, In d D -> In o (ssels_ss S F (model_def_scope S F d) (def_sub d)) -> good S (fst o)) as Hgood.
+  { intros d o Hd Ho. apply (proj2 (scopes_good S F Hnt qo) (def_sub d) (model_def_scope S F d) (Hroots d Hd)); [| exact Ho].
+    intros o' Ho'. apply (Hfine d o' Hd Ho'). }
+  assert (forall o, In o (all_fields S F D) ->
+                    exists d, fo_def S F o = Some d /\
+                              match fo_field o with
+                              | SField _ _ _ _ _ _ sub =>
+                                  (if composite S (result_type d)
+                                   then match sub with Some (SelSet _ (_ :: _) _) => true | _ => false end
+                                   else match sub with None => true | Some _ => false end) = true
+                              | _ => True
+                              end) as Hocc.
+  { intros o Ho. apply all_fields_enum in Ho as [d [sc [s0 [Hd [Hin [Hfld ->]]]]]].
+    destruct s0 as [a al n np args dirs sub | |]; try discriminate.
+    destruct (occ_defined S F Hnt Hstr qo sc a al n np args dirs sub (Hgood d _ Hd Hin) (Hsilent d _ Hd Hin)) as [def [E1 E2]].
+    exists def. split; [exact E1 | exact E2]. }
+  split; [| split].
+  - unfold fields_defined. apply forallb_forall. intros o Ho. destruct (Hocc o Ho) as [d [E _]]. rewrite E. reflexivity.
+  - unfold valid_5_3_1. apply forallb_forall. intros o Ho. destruct (Hocc o Ho) as [d [E _]]. rewrite E.
+    destruct (fo_parent o); [destruct (composite S n); reflexivity | reflexivity].
+  - unfold valid_5_3_3. apply forallb_forall. intros o Ho. destruct (Hocc o Ho) as [d [E H]]. rewrite E.
+    destruct (fo_field o); try reflexivity. exact H.
+Qed.
+
+(** with it, the argument rules hold of every accepted document over a well-formed schema *)
+Theorem accepted_arguments_hold pi S F D :
+  order_ok pi -> schema_ok S = true -> validate_model repaired pi S F D = Done [] -> valid_5_4 S F D = true.
+Proof.
+  intros Hpi Hs Hacc. destruct (accepted_fields_hold pi S F D Hpi Hs Hacc) as [Hf _].
+  destruct (accepted_rules_hold pi S F D Hpi Hacc) as [_ [_ [H _]]]. apply H; assumption.
 Qed.
